@@ -164,7 +164,8 @@ def replay(ob):
     rng = np.random.default_rng(11)
     bad = []
     # (115-120, 189, 190: achiral groups whose last tabulated operation is proper; 6, 8, 25: whose second one is improper)
-    groups = [115, 189, 6, 8, 25, 2, 14, 62, 221, 1, 4, 19, 75, 92, 143, 152, 195, 198, 119, 190]
+    # 222, 224: groups whose first 24 tabulated operations are all proper
+    groups = [115, 189, 6, 8, 25, 2, 14, 62, 221, 1, 4, 19, 75, 92, 143, 152, 195, 198, 119, 190, 224, 222]
     w = ob.witness or {}
     if "sg" in w:
         groups = [w["sg"]] + groups
